@@ -302,6 +302,8 @@ CORPUS = [
     ("long-expression-in-action", b'%option noyywrap\n%%\na { int v = 0' + b' + 1' * 4000 + b'; (void) v; }\n', []),
     ("long-comment-in-action", b'%option noyywrap\n%%\na { /* ' + b'=' * 20000 + b' */ }\n', ["-Cf"]),
     ("long-identifier-in-section-3", b'%option noyywrap\n%%\na {}\n%%\nint ' + b'v' * 30000 + b';\n', []),
+    ("keywords-400", b'%option noyywrap\n%%\n' + b''.join(b'kw%03dx { return %d; }\n' % (i, i + 1) for i in range(400)) + b'[a-z0-9]+ { return 1000; }\n', []),
+    ("keywords-800-full-tables", b'%option noyywrap\n%%\n' + b''.join(b'k%03dq { return %d; }\n' % (i, i + 1) for i in range(800)) + b'[a-z0-9]+ { return 1000; }\n', ["-Cf"]),
     ("recursive-definition-in-class-context", b'A [a]{A}\n%%\nx{A}+/{A} {}\n', []),
 ]
 
